@@ -61,9 +61,10 @@ func newKey(kind string) crypto.Signer {
 }
 
 // MakeCert issues a certificate for key signed by issuer (nil: self-signed).
-func MakeCert(name string, key crypto.Signer, issuer *Identity, notBefore, notAfter time.Time, isCA bool, eku []x509.ExtKeyUsage) *Identity {
+func MakeCert(name string, key crypto.Signer, issuer *Identity, notBefore, notAfter time.Time, isCA bool, eku []x509.ExtKeyUsage, dns ...string) *Identity {
 	pkiSeq++
 	tmpl := &x509.Certificate{
+		DNSNames:              dns,
 		SerialNumber:          big.NewInt(pkiSeq),
 		Subject:               pkix.Name{CommonName: name, Organization: []string{"verif"}},
 		NotBefore:             notBefore,
@@ -129,7 +130,8 @@ func PKI() map[string]*Identity {
 		pki["tsa"] = MakeCert("tsa", newKey("rsa"), tsaCA, Epoch, farFuture, false, []x509.ExtKeyUsage{x509.ExtKeyUsageTimeStamping})
 		pki["tsa-noeku"] = MakeCert("tsa-noeku", newKey("ec"), tsaCA, Epoch, farFuture, false, cs)
 		// TLS server
-		pki["server"] = MakeCert("localhost", newKey("ec"), nil, Epoch, farFuture, false, []x509.ExtKeyUsage{x509.ExtKeyUsageServerAuth})
+		pki["server"] = MakeCert("relic.sim", newKey("ec"), nil, Epoch, farFuture, false, []x509.ExtKeyUsage{x509.ExtKeyUsageServerAuth},
+			"relic.sim", "dir.sim", "s0.sim", "s1.sim", "s2.sim", "s3.sim")
 	})
 	return pki
 }
